@@ -19,6 +19,7 @@ fn wall_cap(tier: Tier) -> f64 {
 fn check(prop: &str, tier: Tier) {
     match prop {
         "C09" | "C10" | "C11" | "C12" => check_dom(prop, tier),
+        "C18" => check_c18(tier),
         other => evidence::machinery_failure(&format!("no engine for property {}", other)),
     }
 }
@@ -78,6 +79,32 @@ fn check_dom(prop: &str, tier: Tier) {
             }),
         );
     }
+    if prop == "C12" {
+        let (out, cfgs) = now_part(&run, tier);
+        println!(
+            "C12 UniqueId::now schedules: configs={} executions={} by_preemptions={:?} distinct_index_outcomes={}",
+            out.configs, out.executions, out.by_preemptions, out.distinct_observations.len()
+        );
+        states += out.executions;
+        transitions += out.executions * out.max_steps as u64;
+        execs += out.executions;
+        closed &= !out.cap_hit;
+        for s in &out.samples {
+            samples.push(serde_json::from_str(s).unwrap());
+        }
+        runs.insert(
+            "concurrent_now".into(),
+            json!({
+                "configs": cfgs,
+                "schedules_explored": out.executions,
+                "schedules_by_preemptions": out.by_preemptions,
+                "max_steps": out.max_steps,
+                "cap_hit": out.cap_hit,
+                "distinct_index_outcomes": out.distinct_observations,
+                "environment": "clock pinned to one second, RNG pinned to one word (ids can differ only by the counter)",
+            }),
+        );
+    }
     let mut cov = serde_json::Map::new();
     cov.insert("states".into(), json!(states));
     cov.insert("transitions".into(), json!(transitions));
@@ -101,6 +128,153 @@ fn check_dom(prop: &str, tier: Tier) {
     );
 }
 
+fn now_part(run: &Run, tier: Tier) -> (vh::c18::OutNow, Vec<Value>) {
+    // (calls per thread, start index, preemption bound)
+    let mut cfgs: Vec<(Vec<usize>, u32, Option<usize>)> = vec![
+        (vec![1, 1], 0, None),
+        (vec![2, 1], 0, None),
+        (vec![2, 2], 0, None),
+        (vec![2, 2], u32::MAX - 1, None),
+        (vec![1, 1, 1], 0, None),
+        (vec![2, 2, 2], u32::MAX - 1, Some(2)),
+    ];
+    if tier == Tier::Thorough {
+        cfgs.push((vec![3, 3], u32::MAX - 2, None));
+        cfgs.push((vec![2, 2, 2], 0, Some(4)));
+        cfgs.push((vec![2, 1, 1], 0, None));
+    }
+    let procs = vh::forkpool::default_procs().min(cfgs.len());
+    let cfgs_ref = &cfgs;
+    let outs = vh::forkpool::fork_map(procs, |w| {
+        let mut out = vh::c18::OutNow::default();
+        for (i, (calls, start, bound)) in cfgs_ref.iter().enumerate() {
+            if i % procs != w {
+                continue;
+            }
+            vh::c18::explore_now(calls, *start, *bound, 2_000_000, &mut out);
+        }
+        out
+    });
+    let mut total = vh::c18::OutNow::default();
+    for o in outs {
+        total.configs += o.configs;
+        total.executions += o.executions;
+        for (i, c) in o.by_preemptions.iter().enumerate() {
+            if total.by_preemptions.len() <= i {
+                total.by_preemptions.resize(i + 1, 0);
+            }
+            total.by_preemptions[i] += c;
+        }
+        total.max_steps = total.max_steps.max(o.max_steps);
+        total.cap_hit |= o.cap_hit;
+        total.distinct_observations.extend(o.distinct_observations);
+        for (key, (count, what, case)) in o.violations {
+            run.violation_n(&key, &what, count, || serde_json::from_str(&case).unwrap());
+        }
+        for s in o.samples {
+            if total.samples.len() < 3 {
+                total.samples.push(s);
+            }
+        }
+    }
+    let cj = cfgs
+        .iter()
+        .map(|(c, s, b)| json!({"calls_per_thread": c, "start_index": s, "preemption_bound": b}))
+        .collect();
+    (total, cj)
+}
+
+fn check_c18(tier: Tier) {
+    let run = Run::new("C18", tier, "model_checking");
+    // nondeterminism guard: one schedule replayed twice must give identical observations
+    {
+        let cfg = vh::c18::Config18 {
+            pre: vec![1, 0],
+            programs: vec![
+                vec![vh::c18::SOp::DropNewest, vh::c18::SOp::NewA],
+                vec![vh::c18::SOp::NewA, vh::c18::SOp::NewA],
+            ],
+        };
+        let sched = vec![0, 1, 0, 1, 1];
+        let (e1, o1) = vh::c18::run_config_once(&cfg, &sched);
+        let s1 = e1.schedule();
+        drop(e1);
+        let (e2, o2) = vh::c18::run_config_once(&cfg, &sched);
+        let s2 = e2.schedule();
+        drop(e2);
+        if s1 != s2 || o1 != o2 {
+            evidence::machinery_failure("C18: the same schedule prefix gave two different executions");
+        }
+    }
+    // (threads, max program length, preemption bound)
+    let mut groups: Vec<(usize, usize, Option<usize>)> = vec![(2, 2, None)];
+    if tier == Tier::Thorough {
+        groups.push((2, 3, None));
+        groups.push((3, 1, None));
+        groups.push((3, 2, Some(2)));
+    } else {
+        groups.push((3, 1, Some(2)));
+    }
+    let mut total = vh::c18::Out18::default();
+    let mut group_json = Vec::new();
+    for (threads, len, bound) in groups {
+        let cfgs = vh::c18::all_configs(threads, len);
+        let procs = vh::forkpool::default_procs();
+        let cfgs_ref = &cfgs;
+        let outs = vh::forkpool::fork_map(procs, |w| {
+            let mut out = vh::c18::Out18::default();
+            for (i, c) in cfgs_ref.iter().enumerate() {
+                if i % procs != w {
+                    continue;
+                }
+                vh::c18::explore_config(c, bound, 5_000_000, &mut out);
+            }
+            out
+        });
+        let before = (total.configs, total.executions);
+        for o in outs {
+            vh::c18::merge_out(&run, &mut total, o);
+        }
+        println!(
+            "C18 group threads={} max_len={} bound={:?}: configs={} schedules={}",
+            threads,
+            len,
+            bound,
+            total.configs - before.0,
+            total.executions - before.1
+        );
+        group_json.push(json!({
+            "threads": threads, "max_program_length": len, "preemption_bound": bound,
+            "configs": total.configs - before.0, "schedules": total.executions - before.1,
+        }));
+    }
+    let samples: Vec<Value> = total.samples.iter().map(|s| serde_json::from_str(s).unwrap()).collect();
+    let cov = json!({
+        "states": total.executions,
+        "transitions": total.executions * total.max_steps as u64,
+        "traces_validated_against_impl": total.executions,
+        "evaluations": total.executions,
+        "distinct_nontrivial": total.distinct_observations.len(),
+        "samples": samples,
+        "schedules_explored": total.executions,
+        "schedules_by_preemptions": total.by_preemptions,
+        "max_steps_per_schedule": total.max_steps,
+        "thread_program_configs": total.configs,
+        "groups": group_json,
+        "cap_hit": total.cap_hit,
+        "exhaustive": !total.cap_hit,
+        "distinct_observations": total.distinct_observations,
+        "rule": "stateless DFS over all schedules of real threads running SharedString new/clone/drop programs under a baton scheduler; yield points: operation boundaries and every acquisition of the intern-table lock (incl. the window between Arc::into_inner and the clean-up); 'states' counts complete schedules, 'transitions' is an upper bound (schedules x max steps)",
+    });
+    run.finish(
+        cov,
+        &[
+            "interleavings at the granularity of intern-table critical sections and operation boundaries; std::sync::Arc/Mutex internals trusted (no weak-memory modelling)",
+            "content alphabet of two byte strings, forced to collide",
+        ],
+    );
+}
+
 fn replay(prop: &str, file: &std::path::Path) {
     let text = std::fs::read_to_string(file)
         .unwrap_or_else(|e| evidence::machinery_failure(&format!("cannot read {}: {}", file.display(), e)));
@@ -108,6 +282,14 @@ fn replay(prop: &str, file: &std::path::Path) {
         .unwrap_or_else(|e| evidence::machinery_failure(&format!("bad replay json: {}", e)));
     let case = &doc["case"];
     match prop {
+        "C12" if case.get("calls").is_some() => {
+            let fs = vh::c18::replay_now(case);
+            for f in &fs {
+                println!("observed: {}", f);
+            }
+            println!("REPLAY property=C12 outcome={}", if fs.is_empty() { "holds" } else { "violation" });
+            std::process::exit(if fs.is_empty() { 0 } else { 1 });
+        }
         "C09" | "C10" | "C11" | "C12" => {
             let ms = vh::domx::replay(case);
             let mine: Vec<_> = ms.iter().filter(|m| m.prop == prop).collect();
@@ -121,6 +303,14 @@ fn replay(prop: &str, file: &std::path::Path) {
                 println!("REPLAY property={} outcome=violation", prop);
                 std::process::exit(1);
             }
+        }
+        "C18" => {
+            let fs = vh::c18::replay(case);
+            for f in &fs {
+                println!("observed: {}", f);
+            }
+            println!("REPLAY property=C18 outcome={}", if fs.is_empty() { "holds" } else { "violation" });
+            std::process::exit(if fs.is_empty() { 0 } else { 1 });
         }
         other => evidence::machinery_failure(&format!("no replay for property {}", other)),
     }
